@@ -173,7 +173,7 @@ class Rig:
         os.chmod(d, 0o555)
 
     # ------------------------------------------------------------------ running
-    def _run(self, datadir, kind, text, sw, ns, mode):
+    def _run(self, datadir, kind, text, sw, ns, mode, script=None):
         sc, ca, es, ee = sw
         env = self.xsh.env
         env["XONSH_DATA_DIR"] = datadir
@@ -186,15 +186,21 @@ class Rig:
         out, err = io.StringIO(), io.StringIO()
         had_us = hasattr(builtins, "_")
         old_us = getattr(builtins, "_", None)
-        escaped = exc = None
+        escaped = exc = escaped_at = None
         try:
             with contextlib.redirect_stdout(out), contextlib.redirect_stderr(err):
                 if kind == "script":
-                    r = self.cc.run_script_with_cache(self.SRC, ex, glb=glb, loc=None, mode="exec")
+                    r = self.cc.run_script_with_cache(script or self.SRC, ex, glb=glb, loc=None, mode="exec")
                 else:
                     r = self.cc.run_code_with_cache(text, "<string>", ex, glb=glb, loc=None, mode=mode)
         except BaseException as e:  # noqa: BLE001 - escaping = fatal for the caller (main.py)
             escaped = type(e).__name__
+            tb = e.__traceback__
+            while tb is not None:  # innermost frame inside xonsh/codecache.py = where the cache layer failed
+                if tb.tb_frame.f_code.co_filename.endswith("codecache.py"):
+                    escaped_at = tb.tb_frame.f_code.co_name
+                tb = tb.tb_next
+            del tb
         else:
             if r is None:
                 exc = "<run_compiled_code returned None: nothing was executed>"
@@ -214,7 +220,10 @@ class Rig:
             if threading.active_count() != self.threads0:
                 raise common.ToolError("a run left a free-running thread behind")
         keys = {k: repr(v)[:40] for k, v in glb.items() if not k.startswith("__") and k not in NAMESPACES[ns]}
-        return {"stdout": out.getvalue(), "calls": [list(c) for c in self.calls], "exc": exc, "escaped": escaped, "ns": dict(sorted(keys.items()))}
+        res = {"stdout": out.getvalue(), "calls": [list(c) for c in self.calls], "exc": exc, "escaped": escaped, "ns": dict(sorted(keys.items()))}
+        if escaped_at:
+            res["escaped_at"] = escaped_at  # informational, not part of same_outcome()
+        return res
 
     def run_real(self, kind, text, sw, ns, mode):
         return self._run(self.data, kind, text, sw, ns, mode)
